@@ -125,6 +125,12 @@ func (p *Program) checkEffectsC12(cfg *effectCfg) []effectObl {
 						checkLHS(a.X)
 					case *ast.UnaryExpr:
 						if a.Op == token.AND {
+							if inner, ok := ast.Unparen(a.X).(*ast.SelectorExpr); ok {
+								if k, fld := sharedValueField(info, inner, shared); k != "" {
+									sharedWrites++
+									sdetail = append(sdetail, p.fset.Position(a.Pos()).String()+": address of "+k+"."+fld+" taken")
+								}
+							}
 							if id := rootIdent(a.X); id != nil {
 								if v, ok := info.Uses[id].(*types.Var); ok && v.Pkg() != nil && v.Parent() == v.Pkg().Scope() && !safeGlobal[v.Pkg().Name()+"."+v.Name()] {
 									writes++
@@ -134,6 +140,19 @@ func (p *Program) checkEffectsC12(cfg *effectCfg) []effectObl {
 						}
 					case *ast.GoStmt:
 						goStmts++
+					case *ast.SelectorExpr:
+						// x.f.M() with a pointer-receiver method M on a value field f of a shared object, or &x.f:
+						// the field is mutable state shared by all connections
+						if inner, ok := ast.Unparen(a.X).(*ast.SelectorExpr); ok {
+							if ms := info.Selections[a]; ms != nil && ms.Kind() == types.MethodVal {
+								if _, ptrRecv := ms.Obj().(*types.Func).Type().(*types.Signature).Recv().Type().(*types.Pointer); ptrRecv {
+									if k, fld := sharedValueField(info, inner, shared); k != "" {
+										sharedWrites++
+										sdetail = append(sdetail, p.fset.Position(a.Pos()).String()+": "+k+"."+fld+" is changed through its method "+a.Sel.Name)
+									}
+								}
+							}
+						}
 					case *ast.SelectStmt:
 						selects++
 					case *ast.CallExpr:
@@ -365,6 +384,32 @@ func mentionsOutsideCalls(e ast.Expr, match func(*ast.Ident) bool) bool {
 	return found
 }
 
+// sharedValueField: sel is x.f where x is (a pointer to) a shared object and f is a field held by value
+// (a struct, array or slice - not a pointer or interface to something synchronised elsewhere).
+func sharedValueField(info *types.Info, sel *ast.SelectorExpr, shared map[string]bool) (string, string) {
+	s := info.Selections[sel]
+	if s == nil || s.Kind() != types.FieldVal {
+		return "", ""
+	}
+	rt := s.Recv()
+	if pt, ok := rt.Underlying().(*types.Pointer); ok {
+		rt = pt.Elem()
+	}
+	named, ok := types.Unalias(rt).(*types.Named)
+	if !ok || named.Obj().Pkg() == nil {
+		return "", ""
+	}
+	k := named.Obj().Pkg().Name() + "." + named.Obj().Name()
+	if !shared[k] {
+		return "", ""
+	}
+	switch s.Type().Underlying().(type) {
+	case *types.Struct, *types.Array, *types.Slice, *types.Map:
+		return k, sel.Sel.Name
+	}
+	return "", ""
+}
+
 func isConstructor(fd *ast.FuncDecl) bool {
 	return fd.Recv == nil && strings.HasPrefix(fd.Name.Name, "New")
 }
@@ -392,6 +437,11 @@ func (p *Program) checkEffectsC18(cfg *effectCfg) []effectObl {
 			switch obj.Name() {
 			case "Getpid", "Getppid", "Hostname", "Getenv", "Environ", "Getwd":
 				return "os." + obj.Name()
+			}
+		case "sync":
+			// a pooled object carries whatever an earlier use left in it
+			if f, ok := obj.(*types.Func); ok && obj.Name() == "Get" && strings.Contains(f.FullName(), "Pool") {
+				return "sync.Pool.Get"
 			}
 		}
 		return ""
